@@ -110,7 +110,10 @@ Print Assumptions C17_container_without_buffer_panics.
 (* ---- through a reply (handle_diagnostics_response with the debug log on): never panics; accepted iff
    data telegram 60 -> 62 with >= 6 bytes; header reported faithfully; ext diag stored iff EXT_DIAG
    (bit 3 of byte 0) and a buffer exists and the string fits, else the previous content stays;
-   a rejected reply changes nothing. *)
+   a rejected reply changes nothing.  (The model pins down the code as it is.  The executable oracle
+   c17_reply_ok is deliberately weaker where the property text is silent: with EXT_DIAG clear it also
+   accepts an implementation that records trailing ext bytes when they fit; this theorem shows that
+   the oracle accepts the model.) *)
 Theorem C17_via_dp : forall s r, ext_ok (p_ext s) -> reply_bytes r ->
   exists s' acc, diag_reply s r = Ok (s', acc) /\
     ext_ok (p_ext s') /\ ext_cap (p_ext s') = ext_cap (p_ext s) /\
